@@ -1491,8 +1491,6 @@ _add("C04", "partial", [
     "c04_value_ap / c04_reparse_ap and every c04_* theorem other than c04_ap_* / c04_rv_* are theorems about the machine model, which "
     "reads an object keyed by a private token as RFC 8259 does; the crate does not (open findings C04-ap-private-number-token, "
     "C04-rv-private-rawvalue-token): WFValue does not exclude such keys; c04_ap_value / c04_rv_value are the statements for the faithful models",
-    "default build, 'f64 values that print as short literals round-trip': no theorem derives FloatsRoundTrip from c08_exact_short + "
-    "RyuShortest for short outputs; the hypothesis is carried",
     "RyuShortest ext (hypothesis of c04_value_fr, c04_typed_fr, c07_roundtrip, ...) is a statement about the external printer ryu; no Lean "
     "witness ext satisfying it is constructed (the stand-in ext0 of the examples prints every float as 1.5 and does not); it is exercised "
     "on the real ryu by ops f64pr / f32pr (every exponent) and f32all (all 2^32 patterns)",
@@ -1501,8 +1499,6 @@ _add("C05", "partial", [
     "two clauses of the statement have no theorem: 'a borrowed &str is a subslice and exists exactly when there are no escapes' and 'as "
     "bytes: WTF-8 for unpaired surrogates, raw non-UTF-8 passes through' (typed String / &str / bytes targets; the raw-string automaton "
     "stepRaw of Model.Typed is tied by ops tt / c16x only); the decode theorems are for the Value target",
-    "Model.Hex.decodeFourHex and Model.Swar.skipToEscape are standalone models of read.rs's helpers; the byte-step machine uses its own "
-    "hex4 and a naive scan (no theorem equates the machine's hex4 with Spec.Str.hex4Val; both are run against the crate)",
 ])
 _add("C06", "partial", [
     "IntTy has ten widths (isize / usize are not separate: 64-bit target)",
@@ -1933,3 +1929,43 @@ PROPS["C07"]["rule"] += (" Configuration rvpofr (float_roundtrip + raw_value): e
 PROPS["C09"]["rule"] += " Tag long-err (c01::long_err): the long-number syntax-error family described under C11, three sources compared."
 PROPS["C11"]["rule"] += (" The crafted lc3 list also holds ten long-number texts (20+ integer digits cut short after . / e / e+, the next byte a newline variant, a closer or a "
                          "letter) for the targets f64, f32, Value, IgnoredAny and Vec<f64>.")
+
+# ---- two gaps of the honesty pass closed by theorems (branch wip-pshort): C04 default-build float class; C05 hex readers
+PROPS["C04"]["lean_targets"] = PROPS["C04"]["lean_targets"][:-1] + ["SJ.Props.C04Short"] + PROPS["C04"]["lean_targets"][-1:]
+PROPS["C04"]["level_text"] += (
+    " Default build, 'f64 values that print as short literals' (Props/C04Short.lean over Proofs/C04Short.lean): the carried hypothesis "
+    "FloatsRoundTrip is DISCHARGED there - c04_default_short_float (without float_roundtrip / arbitrary_precision, under RyuShortest: for "
+    "every finite double b whose printed text ext.ryu64 b has at most 15 digits after dropping leading zeros - integer and fraction "
+    "digits as written - and a net decimal exponent within +-22, Model.Num.convertDefault of the scanned text is b, bit for bit: "
+    "RyuShortest says the text's exact value rounds to b, c08_exact_short that the default conversion of such a text is that rounding, "
+    "the written fraction / exponent that the result is stored as a Float), c04_floats_roundtrip_short (FloatsRoundTrip for every value "
+    "with ShortFloats ext v), c04_default_short_floats (every well-formed Value whose floats are of that class survives to_string / "
+    "to_string_pretty -> from_str / from_slice / from_reader, the only float hypothesis left being RyuShortest about the external "
+    "printer), c04_typed_default_short (the same for the f64 members of typed data; the f32 hypothesis F32sRoundTrip is still carried). "
+    "ShortFloats is exactly what harness/src/c04.rs prints_short evaluates on the text the crate prints. The class cannot be widened to "
+    "'15 significant digits, scientific exponent within +-22': c04_default_long_fails (the double 8000000000000020.0 - 15 significant "
+    "digits, printed by ryu with seventeen - is read back by the default build as 8000000000000019.0) and c04_default_sci15_fails "
+    "(7.40865532228085e-9 comes back as 7.408655322280851e-9), both kernel-checked on the model and replayed on the crate (op f64lit).")
+PROPS["C04"]["technique"] += ("; default-build float class: composition of RyuShortest (nearest-even of the printed text) with C08's exactness "
+    "theorem on the printed text's digits")
+_add("C04", "partial", [
+    "default build: c04_default_short_floats reads the statement's class 'at most 15 significant digits, decimal exponent within +-22' as C08 "
+    "states it - digits of the printed text as the parser accumulates them (a trailing .0 counts) and NET exponent (written exponent minus "
+    "fraction digits). Under the other reading (significant digits of the shortest representation, scientific exponent) the statement is false in "
+    "the default build: c04_default_long_fails, c04_default_sci15_fails (kernel-checked witnesses, replayed on the crate). The class is "
+    "sufficient, not necessary (123456789012345.0 prints with sixteen digits and round-trips). For typed data the f32 members' hypothesis "
+    "F32sRoundTrip stays carried in the default build (checked on all 2^32 patterns by op f32all)",
+])
+PROPS["C05"]["lean_targets"] = PROPS["C05"]["lean_targets"][:-1] + ["SJ.Props.C05Hex"] + PROPS["C05"]["lean_targets"][-1:]
+PROPS["C05"]["level_text"] += (
+    " The \\uXXXX readers are one function (Props/C05Hex.lean over Proofs/HexEquiv.lean): c05_machine_hex4_spec (the byte-step machine's "
+    "hex4 on the four bytes after \\u = Spec.Str.hex4Val, on every quadruple: per-byte agreement over the 256 byte values, lifted), "
+    "c05_hex4_rejects_iff (none exactly when one of the four bytes is not 0-9 a-f A-F, otherwise the grammar's positional value, below 2^16), "
+    "c05_hex_three_agree (machine hex4 = table-based decode_four_hex_digits = specification), c05_machine_hex_steps (stepStr from the state "
+    "after \\u: the first three bytes are stored whatever they are, the fourth fails with InvalidEscape exactly when hex4Val is none and "
+    "otherwise continues with exactly that value). The scan: c05_scan_is_naive restates c05_swar_first_escape - skip_to_escape returns "
+    "index + the number of following bytes that are none of quote, backslash, control - and c09_slice_str_refines ties the scanner built on "
+    "it to the machine's byte steps.")
+PROPS["C04"]["partial"] = [x.replace("for the default build it remains a hypothesis (C08 covers short literals)",
+    "for the default build it is discharged for floats that print as short literals (c04_default_short_floats, from RyuShortest and "
+    "c08_exact_short) and remains a hypothesis for the others") for x in PROPS["C04"]["partial"]]
